@@ -105,6 +105,30 @@ Theorem C12_failed_tx_keeps_no_logs : forall progs fuel target value th ti orig 
 Proof. exact failed_tx_logs. Qed.
 Print Assumptions C12_failed_tx_keeps_no_logs.
 
+(* Gas (the frame has an explicit budget; the cost of an action's byte code is a table entry measured on the real
+   interpreter, call forwarding = min(requested, all but 1/64) + stipend, surcharges, code deposit and precompile fees
+   as in the fork under test; out of gas is computed). No call tree, creation or transaction hands back more gas
+   than it was given, across nested frames with real forwarding; and a frame that was entered and ended with an
+   error other than REVERT hands back none. *)
+Theorem C12_gas_bounded_call : forall progs fuel cx kind target value s o l s',
+  wf s -> do_call (run progs fuel) cx kind target value s = (o, l, s') -> gas s' <= gas s.
+Proof. exact gas_bounded_call. Qed.
+Print Assumptions C12_gas_bounded_call.
+
+Theorem C12_gas_bounded_create : forall progs fuel cx value init s o l s',
+  wf s -> do_create progs (run progs fuel) cx value init s = (o, l, s') -> gas s' <= gas s.
+Proof. exact gas_bounded_create. Qed.
+
+Theorem C12_gas_bounded_tx : forall progs fuel t s o l s',
+  wf s -> exec_tx progs fuel t s = (o, l, s') -> gas s' <= t_gas t.
+Proof. exact gas_bounded_tx. Qed.
+
+Theorem C12_failed_frame_consumes_gas : forall progs fuel cx payer target value s c l s',
+  wf s -> call_body (run progs fuel) cx (fst (snapshot s)) payer target value (snd (snapshot s)) = (OErr c, l, s') ->
+  gas s' = 0.
+Proof. exact failed_frame_no_gas. Qed.
+Print Assumptions C12_failed_frame_consumes_gas.
+
 (* Block level: the log list a receipt reads (GetLogs of its hash right after its transaction) is not changed by
    any later transaction with a different hash executed on the same state object; and well-formedness of the
    revision stack (hypothesis of the theorems above) holds for a fresh state and is kept by every transaction. *)
